@@ -1,6 +1,7 @@
 """Deterministic step budget (DESIGN 2.6): counts PY_START and JUMP events with sys.monitoring and
 raises a BaseException subclass when a limit is exceeded, so that "terminates promptly" has a
 replayable meaning and the library's ``except Exception`` cannot swallow it."""
+import signal
 import sys
 
 TOOL_ID = 4
@@ -11,7 +12,14 @@ class BudgetExceeded(BaseException):
 
 
 class StepBudget:
-    def __init__(self, limit: int):
+    """``cpu_s``: additionally a quota of processor time of this process (ITIMER_VIRTUAL: user-mode CPU time, so independent
+    of the load of the machine) for loops that run inside C code where no Python step is counted: CPython's regular
+    expression engine polls for signals, so catastrophic backtracking is interrupted by it.  The quota is three orders of
+    magnitude above what any operation of the unchanged library uses; exceeding it is reported exactly like the step budget."""
+
+    def __init__(self, limit: int, cpu_s: float = None):
+        self.cpu_s = cpu_s
+        self._old_handler = None
         self.limit = int(limit)
         self.count = 0
         self.active = False
@@ -24,7 +32,16 @@ class StepBudget:
             self.tripped = True
             raise BudgetExceeded(f'step budget of {self.limit} exceeded')
 
+    def _on_cpu(self, signum, frame):
+        if self.active:
+            self.active = False
+            self.tripped = True
+            raise BudgetExceeded(f'processor time quota of {self.cpu_s}s exceeded')
+
     def __enter__(self):
+        if self.cpu_s:
+            self._old_handler = signal.signal(signal.SIGVTALRM, self._on_cpu)
+            signal.setitimer(signal.ITIMER_VIRTUAL, self.cpu_s)
         mon = sys.monitoring
         try:
             mon.use_tool_id(TOOL_ID, 'verif-budget')
@@ -42,6 +59,9 @@ class StepBudget:
     def __exit__(self, *exc):
         mon = sys.monitoring
         self.active = False
+        if self.cpu_s:
+            signal.setitimer(signal.ITIMER_VIRTUAL, 0)
+            signal.signal(signal.SIGVTALRM, self._old_handler if self._old_handler is not None else signal.SIG_DFL)
         mon.set_events(TOOL_ID, 0)
         mon.register_callback(TOOL_ID, mon.events.PY_START, None)
         mon.register_callback(TOOL_ID, mon.events.JUMP, None)
